@@ -48,7 +48,8 @@ REGISTRY = {
     "C19": dict(
         level="exploration",
         units=[dict(pkg=OPT, test="TestVerifC19", quick=20000, thorough=500000, shards_quick=8, shards_thorough=16),
-               dict(pkg=APP, test="TestVerifC19Sim", quick=800, thorough=30000, shards_quick=16, shards_thorough=16)],
+               dict(pkg=APP, test="TestVerifC19Sim", quick=800, thorough=30000, shards_quick=16, shards_thorough=16),
+               dict(pkg=APP, test="TestVerifC19Steady", quick=800, thorough=30000, shards_quick=16, shards_thorough=16)],
     ),
     "C17": dict(
         level="exploration",
